@@ -688,6 +688,7 @@ class Walk:
         self.nontrivial = set()
         self.dist = collections.Counter()
         self.gateway_effects = collections.Counter()
+        self.gateway_first = {}
         self.renames = []
         self.observed_pure = observed_pure or set()
         self.cur = self.snap.take() if mode == "a" else None
@@ -746,6 +747,8 @@ class Walk:
                 self.mismatch.append(dict(rec, predicted=row["level"], predicted_tags=row["tags"]))
         if not judged:
             self.gateway_effects[(sig, ec if ec == "other" else "empty:" + ",".join(eff[1]))] += 1
+            if ec == "other" and sig not in self.gateway_first:
+                self.gateway_first[sig] = rec
             return
         if row is not None and row["documented"]:
             self.gateway_effects[(sig + " (documented creating)", ec)] += 1
@@ -1123,6 +1126,7 @@ def deck_job(args):
     res["obs"] = {"|".join(k): {"%s/%s" % kk: n for kk, n in c.items()} for k, c in w.obs.items()}
     res["evals"], res["nontrivial"], res["dist"] = w.evals, sorted(w.nontrivial), dict(w.dist)
     res["gateways"] = {"%s -> %s" % k: n for k, n in w.gateway_effects.items()}
+    res["gateway_first"] = w.gateway_first
     res["renames"] = w.renames
     observed_pure = {k for k, c in w.obs.items() if all(e == "none" for (_kd, e) in c)}
     # ---- (b)
@@ -1529,6 +1533,7 @@ def run(ck, tier, rng):
         results = [deck_job(j) for j in jobs]
     obs = collections.defaultdict(collections.Counter)
     gate = collections.Counter()
+    gate_first = {}
     reported = {}
     n_mismatch, n_deckdiff, opened, renamed, saves, trav, trav_calls = 0, 0, 0, 0, 0, 0, 0
     model_cases, model_expect, goa_cases = [], [], []
@@ -1557,6 +1562,8 @@ def run(ck, tier, rng):
                 obs[tuple(k.split("|"))][kk] += n
         for k, n in res["gateways"].items():
             gate[k] += n
+        for k, rec in res.get("gateway_first", {}).items():
+            gate_first.setdefault(k, rec)
         for cname in res["outside"]:
             ck.violation("unmodelled-class:" + cname, "an object of class %s was reached by the walk of %s but the class is "
                          "not in the accessor table" % (cname, res["deck"]),
@@ -1703,6 +1710,22 @@ def run(ck, tier, rng):
         creates_known = set(json.load(open(os.path.join(VERIF, "tx", "c12_creates_known.json"))))
     except Exception:  # noqa
         creates_known = None
+    # ... and WHAT a gateway writes is tied the same way: an accessor that hands back a proxy (text_frame, font, fill ...) and
+    # only added empty, attribute-less elements on the tree tx/c12_gateway_content_known.json was recorded on must not
+    # start to write attributes, text or other content when it is merely read
+    try:
+        content_known = set(json.load(open(os.path.join(VERIF, "tx", "c12_gateway_content_known.json"))))
+    except Exception:  # noqa
+        content_known = None
+    if content_known is not None:
+        for sig, rec in sorted(gate_first.items()):
+            if sig in content_known or sig.endswith("(documented creating)"):
+                continue
+            ck.violation("gateway-writes-content:" + sig,
+                         "reading %s (it hands back a proxy object) now writes more than empty, attribute-less elements into the document "
+                         "(%s, object %s): %s" % (sig, rec.get("deck"), rec.get("object"), str(rec.get("detail"))[:500]),
+                         {"entry_point": sig + " (accessor)", "input": {"deck": rec.get("deck"), "object": rec.get("object"), "steps": rec.get("steps")},
+                          "impl_outcome": str(rec.get("detail"))[:1200]})
     new_creating = sorted({r["sig"] for r in meta["rows"] if r["level"] == "Creates" and not r["unres"]} - creates_known) if creates_known is not None else []
     fstats = foreign_reads(ck, rng, tier == "quick", set(meta["containers"]), set(new_creating))
     for sig in new_creating:
